@@ -155,7 +155,7 @@ def pow_S : Rule :=
 def pow_A : Rule :=
   { name := "pow_A",
     val := (.pow (.var 0) (.var 1)),
-    dself := (.mul (.var 1) (.pow (.var 0) (.sub (.var 1) (.const (1 : Rat))))),
+    dself := (.mul (.var 1) (.pow (.var 0) (.var 1))),
     dother := none,
     plain := none }
 
